@@ -203,6 +203,195 @@ def check_as_samples(ctx, r, B):
     B.add(line, out, 'as_samples', ic, f'as_samples({expr})', detail=dict(input=expr))
 
 
+# ------------------------------------------------------------------------------------------ as_samples: remaining forms (round 7)
+
+def sl_elem(r, kind, rows, labels):
+    """one element of an iterator of samples-likes: (python expression, driver tokens)"""
+    if kind == 'dict':
+        o = perm_of(r, labels)
+        return dict_lit(rows[0], o), 'dict ' + (','.join(f'{lab(k)}={rat(F(rows[0][k]))}' for k in o) or '.')
+    perm = perm_of(r, labels)
+    mat = [[row[l] for l in perm] for row in rows]
+    if kind == 'lab':
+        return f'(np.array({mat!r}).reshape({len(rows)}, {len(perm)}), {perm!r})', f'lab {rows_tok(mat)} {labs(perm)}'
+    if kind == 'lab1':
+        return f'({mat[0]!r}, {perm!r})', f'lab1 {rats(mat[0])} {labs(perm)}'
+    if kind == 'ss':
+        return (f'dimod.SampleSet.from_samples((np.array({mat!r}).reshape({len(rows)}, {len(perm)}), {perm!r}), "INTEGER", '
+                f'energy={[0] * len(rows)!r}, sort_labels=False)'), f'ss {rows_tok(mat)} {labs(perm)}'
+    raise ValueError(kind)
+
+
+def check_as_samples_forms(ctx, r, B):
+    """the input forms beyond the seven of `SL`: iterators / generators / map objects / sequences containing a mapping whose
+    ELEMENTS are samples-likes of any form (dicts, labelled arrays with several rows, SampleSets), incl. the state the iterator
+    object is left in (one-shot); the deprecated (Mapping, labels) tuple; (iterator, labels) and wrong-length tuples; the dtype
+    picked for integer input without a dtype."""
+    hdr = 'import warnings; warnings.simplefilter("ignore")\nimport numpy as np, dimod\n'
+    ns = {'np': np, 'dimod': dimod}
+    kind = r.choice(['iter', 'iter', 'iter', 'mapping-labels', 'tuple-errors', 'dtype', 'dtype'])
+    ctx.tick('as_samples forms:' + kind)
+    if kind == 'iter':
+        n = r.choice([1, 2, 3, 3, 4])
+        labels = r.sample(LABELS, n)
+        nel = r.choice([1, 2, 2, 3, 4])
+        elems, toks, truth = [], [], []
+        bad_at = r.randrange(nel) if nel >= 2 and r.random() < .2 else None
+        for i in range(nel):
+            ek = r.choice(['dict', 'dict', 'lab', 'lab1', 'ss'])
+            k = 1 if ek in ('dict', 'lab1') else r.choice([1, 2, 3])
+            ls = list(labels)
+            if i == bad_at and i > 0:
+                ls = ls[:-1] + [next(l for l in LABELS if l not in labels)]
+            rows = [{l: r.choice([-2, -1, 0, 1, 3]) for l in ls} for _ in range(k)]
+            e, t = sl_elem(r, ek, rows, ls)
+            elems.append(e); toks.append(t); truth.append(rows)
+        if bad_at == 0:
+            bad_at = None
+        has_map = any(e.startswith('{') for e in elems)
+        wrap = r.choice(['iter', 'generator', 'map'] + (['list', 'list'] if has_map else []))
+        lst = '[' + ', '.join(elems) + ']'
+        expr = {'iter': f'iter({lst})', 'generator': f'(e_ for e_ in {lst})', 'map': f'map(lambda e_: e_, {lst})', 'list': lst}[wrap]
+        ic = f'iterator of samples-likes ({wrap})' + ('; an element with another label set' if bad_at is not None else '')
+        line = 'assamplesiter ' + ' / '.join(toks)
+        ctx.tick('as_samples forms: wrapper ' + wrap)
+        flat = [row for rows in truth for row in rows]
+        repro = hdr + f'enc = {expr}\ntruth = {flat!r}\narr, labels = dimod.as_samples(enc)\nassert len(arr) == len(truth), (arr, labels)\n' \
+            'for r, row in enumerate(truth):\n    for l, x in row.items():\n        assert arr[r][list(labels).index(l)] == x, (r, l, arr[r], x)\n'
+        ctx.case(('as_samples forms', expr), nontrivial=True)
+        it = eval(expr, ns)
+        one_shot = wrap in ('iter', 'generator', 'map')
+        try:
+            arr, got_labels = dimod.as_samples(it)
+            got_rows = [[F(x) for x in row] for row in np.asarray(arr).tolist()]
+            got_labels = list(got_labels)
+            out = f'ok {rows_tok(got_rows)} {labs(got_labels)}'
+            ok = True
+        except Exception as e:  # noqa
+            out, ok = 'err ' + exc_class(e), False
+        left = len(list(it)) if one_shot else None
+        if bad_at is not None:
+            if ok:
+                ctx.fail('property', 'as_samples', ic, f'accepted {expr}', repro=hdr + f'try:\n    dimod.as_samples({expr})\nexcept ValueError:\n    pass\nelse:\n    raise AssertionError("accepted")\n')
+        elif not ok:
+            ctx.fail('property', 'as_samples', ic, f'valid input rejected ({out}): {expr}', repro=repro)
+        else:
+            bad = None
+            if len(got_rows) != len(flat):
+                bad = f'{len(got_rows)} rows for {len(flat)} samples'
+            else:
+                for ri, row in enumerate(flat):
+                    for l, x in row.items():
+                        if l not in got_labels or got_rows[ri][got_labels.index(l)] != x:
+                            bad = f'row {ri} label {l!r}: delivered {got_rows[ri][got_labels.index(l)] if l in got_labels else None}, the input assigns {x}'
+                            break
+                    if bad:
+                        break
+            if bad:
+                ctx.fail('property', 'as_samples', ic, f'{bad}; input {expr}', repro=repro, detail=dict(input=expr))
+            if one_shot:
+                # Lean: as_samples_iterator_one_shot — the same iterator object asked again yields zero samples
+                arr2, labels2 = dimod.as_samples(it)
+                ctx.tick('as_samples forms: iterator asked twice')
+                if np.asarray(arr2).shape != (0, 0) or list(labels2):
+                    ctx.fail('correspondence', 'as_samples', ic + '; same iterator object asked again', f'second call returned {np.asarray(arr2).tolist()} {list(labels2)}, model: zero samples')
+
+        def same(g, out=out, left=left):
+            res, _, lf = g.rpartition(' left=')
+            return res == out and (left is None or int(lf) == left)
+        B.add(line, '', 'as_samples', ic, f'as_samples({expr}) [iterator left with {left} elements]', detail=dict(input=expr), on_mismatch=same)
+    elif kind == 'mapping-labels':
+        n = r.choice([0, 1, 2, 3, 4])
+        labels = r.sample(LABELS, n)
+        row = {l: r.choice([-2, -1, 0, 1, 3]) for l in labels}
+        order = perm_of(r, labels)
+        given = perm_of(r, labels)
+        how = r.choice(['all', 'all', 'all', 'subset', 'missing', 'duplicate'])
+        if how == 'subset' and n >= 2:
+            given = given[:-1]
+        elif how == 'missing':
+            given = given + [next(l for l in LABELS if l not in labels)]
+        elif how == 'duplicate' and n:
+            given = given + [given[0]]
+        else:
+            how = 'all'
+        expr = f'({dict_lit(row, order)}, {given!r})'
+        ic = f'deprecated (Mapping, labels) tuple; labels: {how}'
+        ctx.case(('as_samples forms', expr), nontrivial=bool(n))
+        import warnings
+        try:
+            with warnings.catch_warnings():
+                warnings.simplefilter('ignore')
+                arr, got_labels = dimod.as_samples(eval(expr, ns))
+            got_rows = [[F(x) for x in rw] for rw in np.asarray(arr).tolist()]
+            out, ok = f'ok {rows_tok(got_rows)} {labs(got_labels)}', True
+        except Exception as e:  # noqa
+            out, ok = 'err ' + exc_class(e), False
+        if how in ('all', 'subset'):
+            repro = hdr + f'arr, labels = dimod.as_samples({expr})\nrow = {row!r}\nassert list(labels) == {given!r} and len(arr) == 1\n' \
+                'for j, l in enumerate(labels):\n    assert arr[0][j] == row[l]\n'
+            if not ok:
+                ctx.fail('property', 'as_samples', ic, f'valid input rejected ({out}): {expr}', repro=repro)
+            elif list(got_labels) != given or len(got_rows) != 1 or any(got_rows[0][j] != row[l] for j, l in enumerate(given)):
+                ctx.fail('property', 'as_samples', ic, f'delivered {got_rows} under {list(got_labels)}; input {expr}', repro=repro)
+        elif ok:
+            ctx.fail('property', 'as_samples', ic, f'accepted {expr} -> {out}',
+                     repro=hdr + f'try:\n    dimod.as_samples({expr})\nexcept ValueError:\n    pass\nelse:\n    raise AssertionError("accepted")\n')
+        B.add(f'assamplesml {",".join(f"{lab(k)}={rat(F(row[k]))}" for k in order) or "."} {labs(given)}', out, 'as_samples', ic, f'as_samples({expr})', detail=dict(input=expr))
+    elif kind == 'tuple-errors':
+        for expr, exc in (("(iter([1, 0]), ['a', 'b'])", TypeError), ("([1, 0], ['a', 'b'], 3)", ValueError), ("([1, 0],)", ValueError)):
+            ctx.case(('as_samples forms', expr), nontrivial=True)
+            try:
+                dimod.as_samples(eval(expr, ns))
+                got = None
+            except Exception as e:  # noqa
+                got = type(e)
+            if got is not exc:
+                ctx.fail('property' if got is None else 'correspondence', 'as_samples', 'malformed tuple', f'{expr}: {got}, model: {exc.__name__}',
+                         repro=hdr + f'try:\n    dimod.as_samples({expr})\nexcept Exception:\n    pass\nelse:\n    raise AssertionError("accepted")\n')
+    else:
+        # dtype: nested list of Python ints, one entry at the edge of a width (all four widths incl. ±(2^63 - 1) and -2^63)
+        n, k = r.choice([1, 2, 3]), r.choice([1, 2, 3])
+        mat = [[r.choice([-3, -1, 0, 1, 2, 100, -100]) for _ in range(n)] for _ in range(k)]
+        w = r.choice([7, 7, 15, 15, 31, 31, 63])
+        bv = r.choice([2 ** w, -(2 ** w), 2 ** w - 1, -(2 ** w) + 1, 2 ** w + 1, -(2 ** w) - 1])
+        if bv > 2 ** 63 - 1 or bv < -2 ** 63:
+            bv = 2 ** 63 - 1
+        if w > 7 or abs(bv) > 100 or r.random() < .8:
+            mat[r.randrange(k)][r.randrange(n)] = bv
+        form = r.choice(['list', 'list+labels', 'dicts', 'dict'])
+        labels = list(range(n))
+        if form == 'list':
+            expr = repr(mat)
+        elif form == 'list+labels':
+            expr = f'({mat!r}, {labels!r})'
+        elif form == 'dicts':
+            expr = '[' + ', '.join('{' + ', '.join(f'{j}: {row[j]}' for j in range(n)) + '}' for row in mat) + ']'
+        else:
+            mat = mat[:1]
+            expr = '{' + ', '.join(f'{j}: {mat[0][j]}' for j in range(n)) + '}'
+        ic = f'integer samples without a dtype; extreme entry {"+" if bv > 0 else "-"}2^{w}' + \
+            ('' if abs(bv) == 2 ** w else '-1' if abs(bv) < 2 ** w else '+1') + f' ({form})'
+        ctx.tick(f'as_samples forms: dtype 2^{w}')
+        ctx.case(('as_samples forms', expr), nontrivial=True)
+        repro = hdr + f'arr, labels = dimod.as_samples({expr})\nassert arr.tolist() == {mat!r}, (arr.dtype, arr.tolist())\n'
+        try:
+            arr, _ = dimod.as_samples(eval(expr, ns))
+            arr = np.asarray(arr)
+            ok = True
+        except Exception as e:  # noqa
+            ok, out = False, 'err ' + exc_class(e)
+        if ok:
+            if arr.tolist() != mat:
+                ctx.fail('property', 'as_samples', ic, f'delivered {arr.tolist()} (dtype {arr.dtype}) for {mat}', repro=repro, detail=dict(input=expr))
+                return
+            out = f'ok {arr.dtype.name} {introws_tok(arr.tolist())}'
+        else:
+            ctx.fail('property', 'as_samples', ic, f'valid input rejected ({out}): {expr}', repro=repro)
+        if form != 'dicts' or k == 1:   # a list of dicts picks the type per element and lets vstack promote
+            B.add(f'samplearray {introws_tok(mat)}', out, 'sampleset._sample_array', ic, f'as_samples({expr})', detail=dict(input=expr))
+
+
 # ------------------------------------------------------------------------------------------ quadratic models
 
 def sample_rows(r, labels, dom, extras=(), k=None):
@@ -368,6 +557,8 @@ def case_bqm(ctx, r, B):
         e = poly_value(m, dict(zip(m.variables, x)))
         B.add(f'energy {l} {a} {o} {rats(x)}', f'{rat(e)} {rat(e)} {rat(e)}', 'abc.h::energy', 'plain vector', 'three evaluations of one sample',
               detail=dict(model=R.lines[4:]))
+        B.add(f'energygen {l} {a} {o} {rats(x)}', f'{rat(e)} {rat(e)}', 'abc.h::energy', 'plain vector; loops over the guards regenerated from the source',
+              'C++ and Cython loops with generated guards', detail=dict(model=R.lines[4:]))
     # D33: the only array-like sample of a variable-free model
     if not labels:
         ctx.tick('energy([])')
@@ -401,6 +592,8 @@ def case_qm(ctx, r, B):
         e = poly_value(m, dict(zip(m.variables, x)))
         B.add(f'energy {l} {a} {o} {rats(x)}', f'{rat(e)} {rat(e)} {rat(e)}', 'abc.h::energy', 'plain vector', 'three evaluations of one sample',
               detail=dict(model=R.lines[4:]))
+        B.add(f'energygen {l} {a} {o} {rats(x)}', f'{rat(e)} {rat(e)}', 'abc.h::energy', 'plain vector; loops over the guards regenerated from the source',
+              'C++ and Cython loops with generated guards', detail=dict(model=R.lines[4:]))
     else:
         try:
             e = F(m.energy([]))
@@ -1074,6 +1267,58 @@ def sweep_permutations(ctx, B):
                 return
 
 
+def sweep_dtype_boundaries(ctx, B):
+    """every run: for EVERY signed integer width (8, 16, 32, 64 bits) the six values around ±2^(w-1) that an int64 holds, as the
+    extreme entry of integer samples given without a dtype, in every dtype-less form: as_samples must deliver the values it was
+    given, and QM / CQM energies at ±2^(w-1) (exact in double) must be the reported polynomial"""
+    hdr = 'import warnings; warnings.simplefilter("ignore")\nimport numpy as np, dimod\n'
+    ns = {'np': np, 'dimod': dimod}
+    for w in (7, 15, 31, 63):
+        for bv in (2 ** w, -(2 ** w), 2 ** w - 1, -(2 ** w) + 1, 2 ** w + 1, -(2 ** w) - 1):
+            if not -2 ** 63 <= bv <= 2 ** 63 - 1:
+                continue
+            name = f'{"+" if bv > 0 else "-"}2^{w}' + ('' if abs(bv) == 2 ** w else '-1' if abs(bv) < 2 ** w else '+1')
+            for form, expr, mat in (('list', f'[[{bv}, 1], [0, -3]]', [[bv, 1], [0, -3]]), ('list+labels', f'([[1, {bv}]], ["a", "b"])', [[1, bv]]),
+                                    ('dict', f'{{"a": {bv}, "b": 2}}', [[bv, 2]]), ('dicts', f'[{{"a": {bv}, "b": 2}}, {{"b": 1, "a": 0}}]', [[bv, 2], [0, 1]]),
+                                    ('1-d list', f'[{bv}, 5]', [[bv, 5]])):
+                ic = f'integer samples without a dtype; extreme entry {name} ({form})'
+                ctx.tick('dtype sweep: ' + name)
+                ctx.case(('dtype sweep', expr), nontrivial=True)
+                repro = hdr + f'arr, labels = dimod.as_samples({expr})\nassert arr.tolist() == {mat!r}, (arr.dtype, arr.tolist())\n'
+                try:
+                    arr = np.asarray(dimod.as_samples(eval(expr, ns))[0])
+                except Exception as e:  # noqa
+                    ctx.fail('property', 'as_samples', ic, f'valid input rejected ({type(e).__name__}: {e}): {expr}', repro=repro)
+                    continue
+                if arr.tolist() != mat:
+                    ctx.fail('property', 'as_samples', ic, f'delivered {arr.tolist()} (dtype {arr.dtype}) for {mat}; input {expr}', repro=repro, detail=dict(input=expr))
+                    continue
+                if form != 'dicts':
+                    B.add(f'samplearray {introws_tok(mat)}', f'ok {arr.dtype.name} {introws_tok(arr.tolist())}', 'sampleset._sample_array', ic, f'as_samples({expr})')
+            if abs(bv) != 2 ** w:
+                continue
+            # energies at ±2^w: 0.5·x + 1·b + 0.25 with b = 1 — exact in double
+            script = hdr + ('from dimod import QuadraticModel as QM, ConstrainedQuadraticModel as CQM\nq = QM()\n'
+                            'q.add_variable("REAL", "x", lower_bound=-1e19, upper_bound=1e19); q.add_variable("BINARY", "b")\n'
+                            'q.set_linear("x", 0.5); q.set_linear("b", 1); q.offset = 0.25\nc = CQM(); c.set_objective(q); c.add_constraint_from_model(q, "<=", 1, label="k")\n')
+            exec(script, ns)
+            want = Fraction(bv) / 2 + 1 + Fraction(1, 4)
+            for target, site in (('q', 'QM.energies'), ('c.objective', 'CQM.objective.energies'), ('c.constraints["k"].lhs', 'CQM.constraint.lhs.energies')):
+                for form, expr in (('dict', f'{{"x": {bv}, "b": 1}}'), ('list+labels', f'([[1, {bv}]], ["b", "x"])'), ('dicts', f'[{{"b": 1, "x": {bv}}}]')):
+                    ic = f'largest magnitude in the sample array is {name}'
+                    ctx.tick(f'dtype sweep: {site}')
+                    ctx.case(('dtype sweep', target, expr), nontrivial=True)
+                    repro = script + f'from fractions import Fraction\ngot = [Fraction(float(e)) for e in {target}.energies({expr})]\nassert got == [Fraction({bv}) / 2 + Fraction(5, 4)], got\n'
+                    try:
+                        got = [F(e) for e in eval(f'{target}.energies({expr})', ns)]
+                    except Exception as e:  # noqa
+                        ctx.fail('property', site, ic, f'{type(e).__name__}: {e} for {expr}', repro=repro)
+                        continue
+                    if got != [want]:
+                        ctx.fail('property', site, ic, f'{form}: energies {list(map(str, got))} but the polynomial of the reported coefficients gives {want}; sample {expr}',
+                                 repro=repro, detail=dict(encoding=expr))
+
+
 def run(ctx):
     r = ctx.rng
     B = Batch(ctx)
@@ -1086,7 +1331,7 @@ def run(ctx):
                 'model has variables and the call evaluates at least one row; distinct by (construction script, target, encoding)')
     for i in range(n):
         kind = r.choice(['bqm', 'bqm', 'qm', 'qm', 'cqm', 'cqm', 'cqm', 'dqm', 'poly', 'as', 'as', 'as', 'wide', 'wide', 'stale', 'stale', 'range', 'range',
-                         'cqmrange', 'cqmrange', 'boundary', 'boundary'])
+                         'cqmrange', 'cqmrange', 'boundary', 'boundary', 'asforms', 'asforms'])
         ctx.tick('model:' + kind)
         if kind == 'bqm':
             case_bqm(ctx, r, B)
@@ -1108,6 +1353,8 @@ def run(ctx):
             case_cqm_range(ctx, r, B)
         elif kind == 'boundary':
             case_dtype_boundary(ctx, r, B)
+        elif kind == 'asforms':
+            check_as_samples_forms(ctx, r, B)
         else:
             check_as_samples(ctx, r, B)
         if len([f for f in ctx.failures if f['kind'] == 'property']) >= 12:
@@ -1125,6 +1372,7 @@ def run(ctx):
             expect = 'crash'
             ctx.fail('crash', site, ic, f'{what}: interpreter exited with status {rc}: {err.strip()[-300:]}', repro=script, detail=detail)
         B.add(line, expect, site, ic, what, detail=detail, on_mismatch=lambda g, expect=expect: g.split(' ')[0] == expect or expect != 'err')
+    sweep_dtype_boundaries(ctx, B)
     if not ctx.quick:
         sweep_permutations(ctx, B)
     B.flush()
